@@ -288,7 +288,7 @@ def trilinear_config(h, mesh, elems, kind, free=None):
         scale = 1.0 if h.sym_mode else max(1.0, abs(float(rhs)))
         h.zero('trilinear: T(w, v, u) == t(u_h, v_h, w_h)', lhs - rhs, scale=scale)
         if not h.sym_mode:
-            dense = T.assemble(ub, vb, wb).todense()
+            dense = T.assemble(ub, vb, wb).toarray()
             h.concrete('dense tensor shape', dense.shape == (wb.N, vb.N, ub.N), str(dense.shape))
             val = float(np.einsum('mrc,m,r,c', dense, z, v, u))
             h.zero('trilinear: dense tensor contraction == t(u_h, v_h, w_h)', val - rhs, scale=scale)
